@@ -201,7 +201,30 @@ func getBreakersOfResource(resource string) []CircuitBreaker {
 	return ret
 }
 
-func calculateReuseIndexFor(r *Rule, oldResCbs []CircuitBreaker) (equalIdx, reuseStatIdx int) {
+// reservedForLaterRule reports whether the old circuit breaker at idx must be kept for a rule that is
+// equal to its rule and comes later in the new list. Equal rules claim the first equal old breakers,
+// so the breaker at idx is spare only if enough equal breakers follow it.
+func reservedForLaterRule(idx int, oldResCbs []CircuitBreaker, laterRules []*Rule) bool {
+	oldRule := oldResCbs[idx].BoundRule()
+	need := 0
+	for _, lr := range laterRules {
+		if oldRule.isEqualsTo(lr) {
+			need++
+		}
+	}
+	if need == 0 {
+		return false
+	}
+	after := 0
+	for _, cb := range oldResCbs[idx+1:] {
+		if cb.BoundRule().isEqualsTo(oldRule) {
+			after++
+		}
+	}
+	return after < need
+}
+
+func calculateReuseIndexFor(r *Rule, oldResCbs []CircuitBreaker, laterRules []*Rule) (equalIdx, reuseStatIdx int) {
 	// the index of equivalent rule in old circuit breaker slice
 	equalIdx = -1
 	// the index of statistic reusable rule in old circuit breaker slice
@@ -220,6 +243,10 @@ func calculateReuseIndexFor(r *Rule, oldResCbs []CircuitBreaker) (equalIdx, reus
 		}
 		if reuseStatIdx >= 0 {
 			// had find reuse rule.
+			continue
+		}
+		if reservedForLaterRule(idx, oldResCbs, laterRules) {
+			// an unchanged rule later in the list keeps this breaker (state and statistics)
 			continue
 		}
 		reuseStatIdx = idx
@@ -417,12 +444,12 @@ func ClearRulesOfResource(res string) error {
 // BuildResourceCircuitBreaker builds CircuitBreaker slice from rules. the resource of rules must be equals to res
 func BuildResourceCircuitBreaker(res string, rulesOfRes []*Rule, oldResCbs []CircuitBreaker) []CircuitBreaker {
 	newCbsOfRes := make([]CircuitBreaker, 0, len(rulesOfRes))
-	for _, r := range rulesOfRes {
+	for i, r := range rulesOfRes {
 		if res != r.Resource {
 			logging.Error(errors.Errorf("unmatched resource name expect: %s, actual: %s", res, r.Resource), "Unmatched resource name in circuitBreaker.BuildResourceCircuitBreaker()", "rule", r)
 			continue
 		}
-		equalIdx, reuseStatIdx := calculateReuseIndexFor(r, oldResCbs)
+		equalIdx, reuseStatIdx := calculateReuseIndexFor(r, oldResCbs, rulesOfRes[i+1:])
 
 		// First check equals scenario
 		if equalIdx >= 0 {
